@@ -64,6 +64,12 @@ def monStep (m : _root_.C16.MonState) (l : Line) : _root_.C16.MonState × Option
        clients := parseClients l, devs := [] }, none)
   | "usercode" =>
     (m, if _root_.C16.userCodeOK (str l "uc.cs").toList (nat l "uc.n") (nat l "uc.d") (str l "o.uc").toList then none else some "user-code-format")
+  | "usercodebytes" =>
+    -- NewUserCode on a chosen byte stream: a user code must have the configured format; a reader that ran dry is an error answer
+    (m, match str l "obs" with
+        | "ok" => if _root_.C16.userCodeOK (str l "uc.cs").toList (nat l "uc.n") (nat l "uc.d") (str l "o.uc").toList then none else some "user-code-format"
+        | "err" => none
+        | _ => some "panic")
   | "devicecode" =>
     (m, if _root_.C16.deviceCodeOK (nat l "n") (str l "o.dc").toList then none else some "device-code-format")
   | _ =>
